@@ -1,4 +1,5 @@
 //! Scenario `cw20`: the real `cw20_base` entry points in direct mode.
+// SCENARIO cw20 crate::scen_cw20::Cw20Scen::new()
 use crate::common::*;
 use cosmwasm_std::testing::{mock_env, MockApi, MockQuerier};
 use cosmwasm_std::{
